@@ -255,6 +255,40 @@ func runC15(c *hx.Ctx) *hx.Outcome {
 			_ = m.String()
 		}
 	}
+	if !appcoreMode && t.SBool(1, 6) {
+		// a long history through ONE handler (hundreds of frames, many week
+		// rollovers of the MSM time state), then every pool frame is displayed:
+		// "processed first or after any other frames"
+		o.Probe("mode:long-history")
+		h := rtcm.New(startTime, level)
+		n := 150 + t.S(1400)
+		var pan string
+		func() {
+			defer func() {
+				if r := recover(); r != nil {
+					pan = fmt.Sprint(r)
+				}
+			}()
+			for i := 0; i < n; i++ {
+				h.GetMessage(shared[t.S(len(pool))])
+			}
+			for fi := range pool {
+				m, _ := h.GetMessage(shared[fi])
+				if m != nil {
+					check(fmt.Sprintf("after a history of %d frames through one handler, frame %d", n, fi), *m, fi, 2, false)
+				}
+			}
+		}()
+		if pan != "" {
+			o.Fail("C15/panic", "after a history of %d frames: %s", n, pan)
+		}
+		if c.Detail {
+			o.Sample = map[string]interface{}{"mode": "long history through one handler", "history_length": n, "frames": len(pool), "log_level": level.String()}
+		}
+		o.Nontrivial = true
+		o.ScenHash ^= uint64(n) << 32
+		return o
+	}
 	s := c.NewSim()
 	s.ChooseStrategy()
 	s.EnableFn(rt.PkgHandler, rt.PkgHeader, rt.PkgDecoders)
